@@ -239,6 +239,12 @@ def run_script(ctx, sc, stratum="script"):
         if k_ in NODES and uses[0] % 3 == 0:
             ctx.feat("feature:node-handle-as-wire")
             return NODES[k_]
+        if uses[0] % 5 == 4:
+            # something that merely implements the Wire protocol (only out_port() says what it is)
+            from vf.interp import _as_wire
+
+            ctx.feat("feature:protocol-only-wire")
+            return _as_wire(W[k_][0])
         return W[k_][0]
 
     def check_tracked(step):
